@@ -131,7 +131,7 @@ class Ctx:
         tladir = os.path.join(TLA, area)
         meta = tempfile.mkdtemp(prefix="meta-", dir=self.scratch)
         w = workers or NCPU
-        cmd = ["java", "-XX:+UseParallelGC"]
+        cmd = ["java", "-XX:+UseParallelGC", "-Djava.io.tmpdir=" + self.scratch]    # TLC leaves tlc-<n> directories behind
         if heap:
             cmd.append("-Xmx" + heap)
         if deque:
